@@ -1545,6 +1545,35 @@ namespace bloch::compiler {
         if (auto newExpr = dynamic_cast<NewExpression*>(expr)) {
             return typeFromAst(newExpr->classType.get());
         }
+        // An assignment used as a value has the type of what it assigns to.
+        if (auto assign = dynamic_cast<AssignmentExpression*>(expr)) {
+            TypeInfo local = getVariableType(assign->name);
+            if (local.value != ValueType::Unknown || !local.className.empty())
+                return local;
+            if (auto field = resolveField(assign->name, assign->line, assign->column))
+                return memberTypeThrough(field->type, field->owner, selfType());
+            return combine(ValueType::Unknown, "");
+        }
+        if (auto memAssign = dynamic_cast<MemberAssignmentExpression*>(expr)) {
+            auto obj = inferTypeInfo(memAssign->object.get());
+            if (!obj.className.empty()) {
+                TypeInfo searchType = obj;
+                if (obj.isTypeParam) {
+                    auto bound = getTypeParamBound(obj.className);
+                    if (bound && !bound->className.empty())
+                        searchType = *bound;
+                }
+                if (auto* field = findFieldInHierarchy(searchType, memAssign->member))
+                    return memberTypeThrough(field->type, field->owner, searchType);
+            }
+            return combine(ValueType::Unknown, "");
+        }
+        if (auto arrAssign = dynamic_cast<ArrayAssignmentExpression*>(expr)) {
+            auto collectionType = inferTypeInfo(arrAssign->collection.get());
+            if (isArrayType(collectionType) && !collectionType.typeArgs.empty())
+                return collectionType.typeArgs.front();
+            return combine(ValueType::Unknown, "");
+        }
         return combine(ValueType::Unknown, "");
     }
 
